@@ -168,8 +168,8 @@ def check_step(c, word, t, pre, post, un, rec):
           rejected_here = True
         else:
           rec.count("accepts")
-      if changed and c["x64"] and c["mode"] != "pmapq" and not c.get("rep") in ("comp", "fd") and all(l == "normal" for l in word):
-        # "verified" is checked, not taken on trust: on fault-free prefixes (well-conditioned float64 roots) an installed root
+      if changed and c["x64"] and c["mode"] != "pmapq" and not c.get("rep") in ("comp", "fd") and all(l in MODERATE for l in word):
+        # "verified" is checked, not taken on trust: on moderate words (no overflow/NaN/Inf letter; float64 roots) an installed root
         # must satisfy the C01 residual oracle against the statistics stored in the same state
         from vmon.monitors import c02
         from vmon.refmodels import ds_ref
